@@ -68,7 +68,8 @@ LEAN_KEYWORDS = {"at", "from", "fun", "let", "in", "do", "then", "else", "if", "
                  "notation", "infix", "prefix", "postfix", "axiom", "example", "abbrev", "opaque", "private",
                  "protected", "partial", "unsafe", "noncomputable", "using", "calc", "nomatch", "nofun", "mut",
                  "break", "continue", "export", "set_option", "attribute", "local", "scoped", "λ", "Σ", "Π",
-                 "obtain", "exists", "forall", "true", "false", "not", "and", "or"}
+                 "obtain", "exists", "forall", "true", "false", "not", "and", "or", "matches", "suffices", "infixl", "infixr",
+                 "termination_by", "decreasing_by", "elab", "declare_syntax_cat", "omit", "include"}
 EXC = {"Exception": ".generic", "ValueError": ".value", "TypeError": ".type", "IndexError": ".index",
        "KeyError": ".key", "NotImplementedError": ".notImplemented", "OverflowError": ".overflow",
        "ZeroDivisionError": ".zeroDiv", "AttributeError": ".attribute", "OSError": ".os"}
